@@ -1,5 +1,5 @@
 From Coq Require Import List NArith ZArith Bool.
-From LTV.C11 Require Import Model ProofsParams Proofs Proofs2 ProofsInv ProofsInv2 ProofsInv3 ProofsInv4 ProofsAlloc ProofsGlob ProofsLim ProofsLim2 ProofsLim3 ProofsLim4.
+From LTV.C11 Require Import Model ProofsParams Proofs Proofs2 ProofsInv ProofsInv2 ProofsInv3 ProofsInv4 ProofsAlloc ProofsGlob ProofsLim ProofsLim2 ProofsLim3 ProofsLim4 ProofsGlob2 ProofsNT ProofsWire.
 Import ListNotations.
 Local Open Scope Z_scope.
 
@@ -48,13 +48,12 @@ Proof. exact ProofsInv4.membership_inv. Qed.
 Print Assumptions counters_inv.
 
 (* the global counter ResourceManager::m_currently{Upload,Download}Unchoked equals the sum of the
-   groups' currently_unchoked after every op list made of every op except the two unit-level entry
-   points production code never calls directly (choke_queue::balance(), and choke_queue::cycle()
-   outside ResourceManager::receive_tick): close, balance_entry, tick, group moves included. *)
+   groups' currently_unchoked after EVERY op list (close, balance_entry, tick, group moves, and the
+   direct unit-level entry points choke_queue::balance / choke_queue::cycle included). *)
 Theorem global_counter : forall nt0 ng0 ops s, (0 < nt0)%nat -> (0 < ng0)%nat ->
-  forallb (fun p => prod_op (fst p)) ops = true -> run (init nt0 ng0) ops = Ok s ->
+  run (init nt0 ng0) ops = Ok s ->
   h_cur (s_up s) = SQu (s_up s) /\ h_cur (s_dn s) = SQu (s_dn s).
-Proof. exact ProofsGlob.global_counter. Qed.
+Proof. exact ProofsGlob2.global_counter_all. Qed.
 Print Assumptions global_counter.
 
 (* allocate_slots_exact over the real heuristics tables: whenever choke_manager_allocate_slots
@@ -75,6 +74,40 @@ Theorem cycle_no_throw_alloc_partial : forall (heur : nat) (choke : bool) s0 s1 
   allocate_slots (if choke then choke_table heur else unchoke_table heur) [s0; s1; s2; s3] mx h <> Err EInternal.
 Proof. exact ProofsAlloc.allocate_slots_no_fault_real. Qed.
 Print Assumptions cycle_no_throw_alloc_partial.
+
+(* cycle_no_throw, the adjust_choke_range part: on a duplicate-free range of connections of group g
+   that are all in the expected state (queued-and-choked for an unchoke pass, unchoked for a choke
+   pass; POK) with weights below 2^32, adjust_choke_range raises neither internal_error nor runs its
+   "find start" loop out of the arrays, and it chokes / unchokes exactly min(max, |range|)
+   connections. Also: a slot call on a connection in the expected state always succeeds (slot_ok).
+   Partial: that the local containers built by retrieve_connections satisfy these hypotheses, and
+   the final `unchoked.size() > quota` check of cycle, are not assembled yet. *)
+Theorem cycle_no_throw_acr_partial : forall d v heur g range mx choke h, v_dir v = d -> InvL d h ->
+  NoDup (ids range) -> POK g choke h (ids range) -> (forall p, In p range -> (snd p < two32)%N) ->
+  adjust_choke_range v heur range mx choke h <> Err EInternal /\
+  adjust_choke_range v heur range mx choke h <> Err EFault /\
+  (forall h' cnt, adjust_choke_range v heur range mx choke h = Ok (h', cnt) -> cnt = N.min mx (lenN range)).
+Proof. exact ProofsNT.acr_ok. Qed.
+Print Assumptions cycle_no_throw_acr_partial.
+
+Theorem slot_ok : forall d v c choke h, v_dir v = d -> InvL d h -> (c < nc h)%nat -> flag choke (getcs h c) = true ->
+  exists h', slot v c choke h = Ok (h', true).
+Proof. exact ProofsNT.slot_ok. Qed.
+Print Assumptions slot_ok.
+
+(* cycle_rotates, the adjust_choke_range part: with a non-empty duplicate-free list of queued
+   candidates in the expected state and a remaining quota >= 1, the unchoke pass of cycle (whose
+   request is max(quota - |unchoked|, alternate) capped by the quota) unchokes at least one queued
+   connection, exactly min(request, |queued|) of them.  Partial: that the request goes to the highest
+   non-empty weight class first, and the assembly with retrieve_connections, are not proved. *)
+Theorem cycle_rotates_acr_partial : forall d v heur g queued (q : queue) (U quota' : N) h h' cnt,
+  v_dir v = d -> InvL d h -> NoDup (ids queued) -> POK g false h (ids queued) ->
+  (forall p, In p queued -> (snd p < two32)%N) -> queued <> [] ->
+  (1 <= quota')%N -> Z.of_N U <= q_cu q ->
+  adjust_choke_range v heur queued (N.min (N.max (if (U <? quota')%N then quota' - U else 0) (max_alternate q)) quota')%N false h = Ok (h', cnt) ->
+  (1 <= cnt)%N /\ cnt = N.min (N.min (N.max (if (U <? quota')%N then quota' - U else 0) (max_alternate q)) quota') (lenN queued).
+Proof. exact ProofsNT.cycle_rotates_acr. Qed.
+Print Assumptions cycle_rotates_acr_partial.
 
 (* limits for choke_queue::cycle: in every reachable-style state (InvL) a cycle of group g ends with
      currently_unchoked(g) <= max( min(quota, max_unchoked(g)), slots forced by min_slots in g )
@@ -102,6 +135,19 @@ Theorem limits_tick : forall d v h h', v_dir v = d -> InvL d h -> h_max h <> 0%N
   sumZ (map (excess h') (seq 0 (ng h'))) <= Z.of_N (h_max h').
 Proof. exact ProofsLim4.tick_limit. Qed.
 Print Assumptions limits_tick.
+
+(* the wire clause: a small model of m_send_choked / the CHOKE-UNCHOKE write of fill_write_buffer.
+   For every interleaving of choke decisions (receive_upload_choke) and buffer writes, whenever no
+   message is pending the last CHOKE/UNCHOKE sent equals m_up_choke; the acceptor wire_accept, which
+   the check runs on the traces of the real client (harness/c11s.cc, session harness), accepts
+   every trace of the model. *)
+Theorem wire_matches_record : forall evs, let s := fst (wrun winit evs []) in w_pend s = false -> w_told s = w_rec s.
+Proof. exact ProofsWire.wire_matches_record. Qed.
+Print Assumptions wire_matches_record.
+
+Theorem wire_accept_complete : forall steps, wire_accept false (wobserve winit steps) = true.
+Proof. exact ProofsWire.wire_accept_complete. Qed.
+Print Assumptions wire_accept_complete.
 
 Theorem zero_on_close : forall nt0 ng0 ops s, (0 < nt0)%nat -> (0 < ng0)%nat ->
   run (init nt0 ng0) ops = Ok s ->
